@@ -11,12 +11,15 @@
  *         (collective calls are always performed: suppressing one rank would block the others by
  *         construction of the test, not of the library)
  *         C11_HCOLL=1  -> info romio_no_indep_rw=true (header I/O collective, NC_HCOLL)
+ *         C11_API_ALARM=<s>: an API call that does not return within <s> seconds is logged as HANG <seq>
+ *         and the rank exits (mpiexec then terminates the job)
  *         no C11_INDEX -> census run (nothing injected)
  *
  * log <logprefix>.<rank>, one line per event, flushed:
  *   IO <idx> <apiseq> <MPI function> <bytes> <injected 0/1> <return addresses of the call stack, innermost first>
  *   API <seq> <name> <return code> [request statuses]
  *   SYNC <seq> <1 if any rank saw an error in call seq>
+ *   HANG <seq>      this rank did not return from call seq within C11_API_ALARM seconds
  *   DONE
  * After every API call the ranks agree (MPI_Allreduce on MPI_COMM_WORLD) whether any of them saw an
  * error; if so the scenario stops there (an application that checks errors collectively).  A rank
@@ -140,8 +143,20 @@ static void api_done(const char *name, int ret, int nst, const int *st)
     if (any) g_stop = 1;
 }
 
-#define A(name, call)  do { int _r = (call); api_done(name, _r, 0, NULL); if (g_stop) goto bail; } while (0)
-#define AW(name, call, n, st)  do { int _r = (call); api_done(name, _r, n, st); if (g_stop) goto bail; } while (0)
+/* watchdog of one API call: a call that does not return within g_alarm seconds is a hang; the rank
+ * logs HANG <seq> and exits, which makes mpiexec terminate the other ranks */
+static int g_alarm = 0;
+static void on_api_alarm(int sig)
+{
+    (void)sig;
+    if (g_log) { fprintf(g_log, "HANG %d\n", g_apiseq); fflush(g_log); }
+    _exit(9);
+}
+static void arm(void) { if (g_alarm > 0 && g_armed) { signal(SIGALRM, on_api_alarm); alarm(g_alarm); } }
+static void disarm(void) { if (g_alarm > 0) alarm(0); }
+
+#define A(name, call)  do { int _r; arm(); _r = (call); disarm(); api_done(name, _r, 0, NULL); if (g_stop) goto bail; } while (0)
+#define AW(name, call, n, st)  do { int _r; arm(); _r = (call); disarm(); api_done(name, _r, n, st); if (g_stop) goto bail; } while (0)
 /* preparation steps: not armed, must succeed */
 #define P(call) do { int _r = (call); if (_r != NC_NOERR) { fprintf(stderr, "prep failed line %d: %s\n", __LINE__, ncmpi_strerror(_r)); MPI_Abort(MPI_COMM_WORLD, 7); } } while (0)
 
@@ -360,13 +375,18 @@ static void sc_zero(const char *file)
     start[0] = NX * g_rank; count[0] = NX;
     if (g_np > 1 && g_rank == g_np - 1) start[0] = NX * g_np + 5;
     {   /* the invalid rank returns NC_EINVALCOORDS by design: do not stop the scenario for that */
-        int r1 = ncmpi_put_vara_int_all(ncid, v1, start, count, buf);
+        int r1;
+        arm();
+        r1 = ncmpi_put_vara_int_all(ncid, v1, start, count, buf);
+        disarm();
         int expected = (g_np > 1 && g_rank == g_np - 1);
         if (g_log) { fprintf(g_log, "NOTE put_vara_int_all raw %d expected_arg_error %d\n", r1, expected); fflush(g_log); }
         api_done("ncmpi_put_vara_int_all(one rank invalid)", (expected && r1 == NC_EINVALCOORDS) ? 0 : r1, 0, NULL);
         if (g_log && expected) { fprintf(g_log, "MASKED %d %d\n", g_apiseq - 1, r1); fflush(g_log); }
         if (g_stop) goto bail;
+        arm();
         r1 = ncmpi_get_vara_int_all(ncid, v1, start, count, buf);
+        disarm();
         api_done("ncmpi_get_vara_int_all(one rank invalid)", (expected && r1 == NC_EINVALCOORDS) ? 0 : r1, 0, NULL);
         if (g_log && expected) { fprintf(g_log, "MASKED %d %d\n", g_apiseq - 1, r1); fflush(g_log); }
         if (g_stop) goto bail;
@@ -547,6 +567,7 @@ int main(int argc, char **argv)
     snprintf(path, sizeof(path), "%s.%d", argv[2], g_rank);
     g_log = fopen(path, "w");
     if (!g_log) { perror(path); MPI_Abort(MPI_COMM_WORLD, 2); }
+    if ((e = getenv("C11_API_ALARM")) != NULL && *e) g_alarm = atoi(e);
     if ((e = getenv("C11_INDEX")) != NULL && *e) {
         f_index = atoi(e);
         f_rank = getenv("C11_RANK") ? atoi(getenv("C11_RANK")) : 0;
